@@ -202,6 +202,22 @@ class PySym:
 
     def call(self, n):
         cn = call_name(n) or ""
+        lf = getattr(self, "localfuncs", {})
+        if cn in lf:
+            # a helper defined inside the analysed function: evaluated in place on the argument values (closure over the current environment)
+            fn = lf[cn]
+            ps = [p.arg for p in fn.args.posonlyargs + fn.args.args]
+            if len(n.args) + len(n.keywords) != len(ps) or fn.args.defaults:
+                raise Unsupported("call of local function %s with defaults / wrong arity" % cn)
+            sub = PySym(dict(self.env), self.positive)
+            sub.opaque = self.opaque
+            sub.localfuncs = lf
+            for p_, a in zip(ps, n.args):
+                sub.env[p_] = self.ex(a)
+            for k in n.keywords:
+                sub.env[k.arg] = self.ex(k.value)
+            sub.run(fn.body)
+            return sub.returned
         if isinstance(n.func, ast.Attribute) and n.func.attr in ("sum", "astype", "copy") and not cn.startswith(("np.", "math.")):
             recv = self.ex(n.func.value)
             if n.func.attr == "sum":
@@ -252,6 +268,13 @@ class PySym:
             return Vec([a[1] * b[2] - a[2] * b[1], a[2] * b[0] - a[0] * b[2], a[0] * b[1] - a[1] * b[0]])
         if cn in ("np.linalg.norm",):
             return self.fn("sqrt", self.dot(args[0], args[0]))
+        if cn in ("np.min", "np.max", "min", "max", "np.amin", "np.amax") and args and args[0] is not None:
+            # smallest / largest of a few symbolic values: an opaque function of the *set* of its arguments
+            items = list(args[0]) if isinstance(args[0], Vec) else [a for a in args if a is not None]
+            if any(isinstance(x, Vec) for x in items):
+                raise Unsupported("min/max over nested values")
+            items = sorted({repr(self.reduce(x)): x for x in items}.items())
+            return self.fn("min" if "min" in last else "max", *[x for _, x in items])
         if cn in ("np.square",):
             return self.binop(ast.Mult(), args[0], args[0])
         if cn in ("np.power",):
@@ -322,5 +345,9 @@ class PySym:
                     raise Unsupported("conditional with effects: %s" % src(s.test)[:50])
         elif isinstance(s, (ast.Pass, ast.Raise, ast.Assert)):
             return
+        elif isinstance(s, ast.FunctionDef):
+            if not hasattr(self, "localfuncs"):
+                self.localfuncs = {}
+            self.localfuncs[s.name] = s
         else:
             raise Unsupported("statement %s" % type(s).__name__)
